@@ -143,6 +143,7 @@ func c03Ambiguous(rng *rand.Rand) *c03Case {
 	p := &ra.Program{Lane: "ambiguity", Files: ra.Files{Include: map[string]string{}, Exclude: map[string]string{}}}
 	p.Files.Include["inc"] = "xa\nyb\nzba\nwab\n##! comment\nplain\n"
 	p.Files.Include["other"] = "otherword\n"
+	p.Files.Include["dups"] = "wget\ncurl\nwget\nnc\ncurl\nsocat\nwget\nzsh\n"
 	p.Files.Exclude["exc"] = "plain\n"
 	var ls []string
 	if core.Chance(rng, 1, 2) {
@@ -169,7 +170,8 @@ func c03Ambiguous(rng *rand.Rand) *c03Case {
 			"##!> include inc -- a \"\" b a", "{{d0}}x", "y{{d1}}{{d0}}", "##!> include inc -- a b ba c wab d", "##!=> ##!> include inc", "##!+ i ##!> include inc", "##! ##!+ s",
 			"##!> define late {{d0}}", "{{late}}", g.WordList(1)[0],
 			"##! + i", "##! +s flag is set elsewhere", "##! ^ anchors the match", "##! $ is matched literally in the next entry", "##!  $", "##! > include inc", "##! >assemble", "##! < end", "##! => marker", "##! =< store",
-			"##!\t+ i", "##! + x"))
+			"##!\t+ i", "##! + x",
+			"##!> include-except dups exc", "##!> include-except dups other -- t T", `cmd[\s -/]arg`, `[\s -/]`, `[\s!-/]x`, `a[^\s -~]`, `\s`, `[\s]+`))
 	}
 	p.Main = strings.Join(ls, "\n") + "\n"
 	return &c03Case{Kind: "generate", Prog: p, Lane: "ambiguity"}
